@@ -26,17 +26,27 @@ use nexosim::time::{Clock, MonotonicTime, SyncStatus};
 
 use super::explore;
 
-pub const BASE_SECS: i64 = 1000;
+/// Seconds part of the simulation start time. Process-wide and set per
+/// family (families run one after the other): negative values put the whole
+/// scenario before the epoch, -1 makes it cross the epoch.
+static BASE_SECS: std::sync::atomic::AtomicI64 = std::sync::atomic::AtomicI64::new(1000);
 pub const BASE_NANOS: u32 = 999_999_998;
+
+pub fn set_base_secs(v: i64) {
+    BASE_SECS.store(v, std::sync::atomic::Ordering::SeqCst);
+}
+fn base_secs() -> i64 {
+    BASE_SECS.load(std::sync::atomic::Ordering::SeqCst)
+}
 
 pub fn mt(off: i64) -> MonotonicTime {
     let total = BASE_NANOS as i64 + off;
-    let secs = BASE_SECS + total.div_euclid(1_000_000_000);
+    let secs = base_secs() + total.div_euclid(1_000_000_000);
     let nanos = total.rem_euclid(1_000_000_000) as u32;
     MonotonicTime::new(secs, nanos).unwrap()
 }
 pub fn off(t: MonotonicTime) -> i64 {
-    (t.as_secs() - BASE_SECS) * 1_000_000_000 + t.subsec_nanos() as i64 - BASE_NANOS as i64
+    (t.as_secs() - base_secs()) * 1_000_000_000 + t.subsec_nanos() as i64 - BASE_NANOS as i64
 }
 
 // ---------------------------------------------------------------------------
@@ -477,6 +487,9 @@ pub struct NodeSpec {
     /// If set, output port i of this node is a *clone* of output port
     /// `share_out.1` of node `share_out.0` (clones share connections).
     pub share_out: Option<(usize, usize)>,
+    /// Connections added *through the clone* obtained by `share_out` (after
+    /// cloning): they must be seen by the original port as well.
+    pub share_conns: Vec<Conn>,
 }
 
 impl NodeSpec {
@@ -492,6 +505,7 @@ impl NodeSpec {
             reqs: vec![],
             unis: vec![],
             share_out: None,
+            share_conns: vec![],
         }
     }
     pub fn script(mut self, tag: u16, ops: Vec<Op>) -> Self {
@@ -1206,7 +1220,8 @@ pub fn build(spec: &Arc<BenchSpec>, w: &Arc<W>) -> Built {
     // Shared (cloned) output ports.
     for i in 0..n {
         if let Some((src_node, src_port)) = spec.nodes[i].share_out {
-            let o = outs_all[src_node][src_port].clone();
+            let mut o = outs_all[src_node][src_port].clone();
+            connect_out(&mut o, &spec.nodes[i].share_conns, &addrs, &bufs, &slots);
             outs_all[i].push(o);
         }
     }
